@@ -104,12 +104,13 @@ func near(a, b, tol float64) bool { return math.Abs(a-b) <= tol*math.Max(1, math
 
 // cmpMode selects what the walker demands.
 type cmpMode struct {
-	exact     bool    // M/L/Z/R coordinates must be exactly the rational
-	cubicTol  float64 // 0 = exact cubics, else relative tolerance
-	judge     bool    // spec semantics: Z ≡ LineTo(start); arcs are checked against the ellipse
-	arcTol    float64 // relative tolerance of the ellipse equation
-	lineTol   float64 // tolerance of M/L/R when !exact
-	approxHit *int    // counts coordinates that were equal only within tolerance
+	exact       bool    // M/L/Z/R coordinates must be exactly the rational
+	cubicTol    float64 // 0 = exact cubics, else relative tolerance
+	judge       bool    // spec semantics: arcs are checked against the ellipse
+	closeByLine bool    // shapes: a LineTo back to the sub-path start counts as the closepath
+	arcTol      float64 // relative tolerance of the ellipse equation
+	lineTol     float64 // tolerance of M/L/R when !exact
+	approxHit   *int    // counts coordinates that were equal only within tolerance
 }
 
 // mismatch describes the first divergence.
@@ -155,15 +156,24 @@ func walk(impl []op, ref []mop, md cmpMode) *mismatch {
 	var cur, start [2]float64
 	i := 0
 	lineTol := md.lineTol
+	maxAbs := 0.0 // largest coordinate seen so far: float32 rounding is relative to the operands
+	seen := func(fs []float64) {
+		for _, v := range fs {
+			if a := math.Abs(v); a > maxAbs && !math.IsInf(a, 0) {
+				maxAbs = a
+			}
+		}
+	}
 	for j, r := range ref {
 		switch r.k {
 		case 'M', 'L', 'R':
 			if i >= len(impl) {
 				return &mismatch{ref: j, impl: i, reason: fmt.Sprintf("implementation stops; expected %c", r.k)}
 			}
-			if impl[i].k != r.k || !coordsEq(impl[i].f, r, md.exact, lineTol, md.approxHit, math.Max(math.Abs(cur[0]), math.Abs(cur[1]))) {
+			if impl[i].k != r.k || !coordsEq(impl[i].f, r, md.exact, lineTol, md.approxHit, maxAbs) {
 				return &mismatch{ref: j, impl: i, reason: fmt.Sprintf("expected %c %v, got %s", r.k, r.f, impl[i])}
 			}
+			seen(impl[i].f)
 			if r.k != 'R' {
 				cur = [2]float64{impl[i].f[0], impl[i].f[1]}
 				if r.k == 'M' {
@@ -175,9 +185,10 @@ func walk(impl []op, ref []mop, md cmpMode) *mismatch {
 			if i >= len(impl) {
 				return &mismatch{ref: j, impl: i, reason: "implementation stops; expected C"}
 			}
-			if impl[i].k != 'C' || !coordsEq(impl[i].f, r, md.cubicTol == 0, md.cubicTol, md.approxHit, math.Max(math.Abs(cur[0]), math.Abs(cur[1]))) {
+			if impl[i].k != 'C' || !coordsEq(impl[i].f, r, md.cubicTol == 0, md.cubicTol, md.approxHit, maxAbs) {
 				return &mismatch{ref: j, impl: i, reason: fmt.Sprintf("expected C %v, got %s", r.f, impl[i])}
 			}
+			seen(impl[i].f)
 			cur = [2]float64{impl[i].f[4], impl[i].f[5]}
 			i++
 		case 'Z':
@@ -190,7 +201,7 @@ func walk(impl []op, ref []mop, md cmpMode) *mismatch {
 			}
 			switch {
 			case impl[i].k == 'Z':
-			case md.judge && impl[i].k == 'L' && impl[i].f[0] == start[0] && impl[i].f[1] == start[1]:
+			case md.closeByLine && impl[i].k == 'L' && impl[i].f[0] == start[0] && impl[i].f[1] == start[1]:
 				// a line back to the sub-path start traces the same outline
 			default:
 				return &mismatch{ref: j, impl: i, reason: fmt.Sprintf("expected closepath, got %s", impl[i])}
@@ -224,7 +235,7 @@ func walk(impl []op, ref []mop, md cmpMode) *mismatch {
 			for k < len(impl) && impl[k].k == 'C' {
 				if md.judge && near(impl[k].f[4], ex, 1e-6) && near(impl[k].f[5], ey, 1e-6) ||
 					!md.judge && md.exact && ratEq(impl[k].f[4], r.r[5]) && ratEq(impl[k].f[5], r.r[6]) ||
-					!md.judge && !md.exact && near(impl[k].f[4], ex, md.lineTol) && near(impl[k].f[5], ey, md.lineTol) {
+					!md.judge && !md.exact && math.Abs(impl[k].f[4]-ex) <= md.lineTol*math.Max(1, math.Max(maxAbs, math.Abs(ex))) && math.Abs(impl[k].f[5]-ey) <= md.lineTol*math.Max(1, math.Max(maxAbs, math.Abs(ey))) {
 					found = true
 					break
 				}
@@ -241,6 +252,9 @@ func walk(impl []op, ref []mop, md cmpMode) *mismatch {
 				if why, dev := arcOnEllipse(cur, impl[i:k+1], r.f, md.arcTol); why != "" {
 					return &mismatch{ref: j, impl: i, reason: why, maxDev: dev}
 				}
+			}
+			for q := i; q <= k; q++ {
+				seen(impl[q].f)
 			}
 			cur = [2]float64{impl[k].f[4], impl[k].f[5]}
 			i = k + 1
